@@ -214,6 +214,62 @@ def run_cli(job):
     return (r.returncode, r.stdout, r.stderr)
 
 
+def history_stream(chk):
+    """The report is a function of the graph AS IT IS NOW: a graph that was inspected before (top, errors, repr, encode)
+    and then edited in place through its public triple list gets the same report as a graph built afresh from the
+    same data (nothing remembered from before the edit, e.g. an implicit top)."""
+    import penman
+    from penman.graph import Graph
+    from penman.model import Model
+    from penman.models.amr import model as amr
+    rng = chk.rng
+    n = 600 if chk.tier == 'quick' else 6000
+    roles = [':instance', ':ARG0', ':ARG1', ':ARG0-of', ':foo', ':mod']
+    for i in range(n):
+        m = amr if i % 2 else Model()
+        vs = ['a', 'b', 'c', 'd'][:rng.randint(2, 4)]
+        ts = []
+        for v in vs:
+            ts.append((v, ':instance', rng.choice(['x', 'y', None])))
+        for _ in range(rng.randint(1, 4)):
+            ts.append((rng.choice(vs), rng.choice(roles[1:]), rng.choice(vs + ['k', 7])))
+        rng.shuffle(ts)
+        g = Graph(list(ts))
+        try:
+            _ = (g.top, m.errors(g), repr(g), g.reentrancies(), g == Graph(list(ts)))
+            try:
+                common.timed(penman.encode, g, seconds=5)
+            except Exception:       # noqa
+                pass
+            how = rng.choice(['drop-first', 'rotate', 'reverse', 'isub-first'])
+            if how == 'drop-first':
+                new = ts[1:]
+                del g.triples[0]
+            elif how == 'rotate':
+                new = ts[1:] + ts[:1]
+                g.triples[:] = new
+            elif how == 'reverse':
+                new = ts[::-1]
+                g.triples.reverse()
+            else:
+                new = [t for t in ts if t != ts[0]]
+                g -= Graph([ts[0]])
+                if g._top is not None:
+                    continue            # -= keeps/sets an explicit top by its own rule (C15): not the case studied here
+            fresh = Graph(list(new))
+            a = [(k, list(v)) for k, v in m.errors(g).items()]
+            b = [(k, list(v)) for k, v in m.errors(fresh).items()]
+        except Exception as e:       # noqa
+            chk.fail('history', f'{type(e).__name__} while inspecting / editing a graph', {'kind': 'history', 'triples': [list(t) for t in ts]})
+            continue
+        chk.count(('history', tuple(ts), how))
+        if a != b or g.top != fresh.top:
+            chk.fail('history', f'after {how} on a graph that was inspected before, errors() = {str(a)[:160]} (top {g.top!r}); a graph built '
+                     f'from the same triples gives {str(b)[:160]} (top {fresh.top!r})',
+                     {'kind': 'history', 'triples': [list(t) for t in ts], 'edit': how, 'amr': bool(i % 2)})
+    chk.stat('history-cases', n)
+
+
 def cli_jobs(chk):
     """every ordering of <= 3 files over contents of 0-2 graphs of kinds good / bad / none-context-only"""
     kinds = ['G', 'B', 'E']
@@ -392,6 +448,7 @@ def run(chk):
 
     chk.notes.append(f'phase model driver (library+decoded): {time.time() - t0:.1f}s')
     t0 = time.time()
+    history_stream(chk)
     # ---------------- command-line tool ----------------------------------------------------
     jobs = cli_jobs(chk)
     with ThreadPoolExecutor(max_workers=common.NPROC) as ex:
